@@ -6,7 +6,9 @@ for d in seeded/*/; do
   s=$(basename $d); id=${s%-*}
   [ -n "$1" ] && [[ ! " $* " =~ " $id " ]] && continue
   exp=$(python3 -c "import json;print(json.load(open('$d/meta.json'))['detection'])")
-  out=$(tools/try_seed.sh $id $d/patch.diff 2>&1)
+  # the check named in how_to_rerun (a few changes are reported by a sibling property's check)
+  cid=$(python3 -c "import json,re;m=re.search(r'try_seed.sh (C\d\d) ',json.load(open('$d/meta.json')).get('how_to_rerun',''));print(m.group(1) if m else '$id')")
+  out=$(tools/try_seed.sh $cid $d/patch.diff 2>&1)
   if echo "$out" | grep -q "does not apply"; then now="n/a"
   elif echo "$out" | grep -q "^VIOLATION"; then now="caught"
   elif echo "$out" | grep -q "check exit=0"; then now="missed"
